@@ -3,7 +3,11 @@
      c15_fix_raw-control-char            quoted string content was copied verbatim (quotes.WrapBytes)
      c15_fix_block-blank-only            firstLine defaulted to 0 when every line was blank
      c15_fix_block-escaped-triple-quote  the escaped triple quote was never replaced
-     c15_fix_default-null-list-wrapped   a null default of a list-typed variable was wrapped *)
+     c15_fix_default-null-list-wrapped   a null default of a list-typed variable was wrapped
+     c15_fix_block-quote-next-to-whitespace  readBlockString: a quote did not reset whitespaceCount and neither
+                                         a quote nor a backslash set reachedFirstNonWhitespace, so the delimiter
+                                         re-scan of BlockStringValueContentRawBytes stopped at a quote of the text
+     c15_fix_braced-unicode-escape       a braced escape was copied into the JSON text as it is *)
 From Gv Require Import lib.Bytes lib.Gql C15.Unicode C15.Model C15.Spec C15.Diag.
 Open Scope N_scope.
 
@@ -29,6 +33,33 @@ Definition default_extract_v0 (vs : vars) (vname : name) (list_wraps : nat) (def
     end
   end.
 
+(* lexer.readBlockString and ValueToJSON between those repairs and the last two (version 1) *)
+Definition blex_step_v1 (st : blex) (b : byte) : blex :=
+  if bl_closed st then st
+  else if is_blockws b then
+    {| bl_escaped := false; bl_quotes := 0; bl_ws := bl_ws st + 1; bl_reached := bl_reached st; bl_lead := bl_lead st; bl_closed := false |}
+  else if b =? 34 then
+    if bl_escaped st then
+      {| bl_escaped := false; bl_quotes := bl_quotes st; bl_ws := bl_ws st; bl_reached := bl_reached st; bl_lead := bl_lead st; bl_closed := false |}
+    else
+      {| bl_escaped := false; bl_quotes := bl_quotes st + 1; bl_ws := bl_ws st; bl_reached := bl_reached st; bl_lead := bl_lead st;
+         bl_closed := (bl_quotes st + 1 =? 3) |}
+  else if b =? 92 then
+    {| bl_escaped := negb (bl_escaped st); bl_quotes := 0; bl_ws := 0; bl_reached := bl_reached st; bl_lead := bl_lead st; bl_closed := false |}
+  else
+    {| bl_escaped := false; bl_quotes := 0; bl_ws := 0; bl_reached := true;
+       bl_lead := if bl_reached st then bl_lead st else bl_ws st; bl_closed := false |}.
+
+Definition blex_run_v1 (raw : bytes) : blex := fold_left blex_step_v1 raw blex0.
+Definition block_rescan_v1 (raw : bytes) : bytes :=
+  let bs := last_quote_before raw 0 (N.to_nat (bl_lead (blex_run_v1 raw))) 0 in
+  let be := first_quote_from raw 0 (length raw - N.to_nat (bl_ws (blex_run_v1 raw)))%nat in
+  firstn (be - bs) (skipn bs raw).
+Definition block_string_value_v1 (raw : bytes) : bytes :=
+  block_lines_value (replace_esc_triple O (block_rescan_v1 raw)).
+Definition string_to_json_v1 (raw : bytes) (block : bool) : bytes :=
+  if block then json_encode_string (block_string_value_v1 raw) else wrap_quotes (escape_ctl raw).
+
 (* a TAB b, in quotes: a valid GraphQL string whose verbatim copy is not JSON *)
 Lemma hist_tab_invalid :
   lit_valid (VStr [97; 9; 98] false) /\ json_denote (string_to_json_v0 [97; 9; 98] false) = JInvalid.
@@ -49,3 +80,19 @@ Lemma hist_default_null_wrapped :
   exists b, default_extract_v0 [] [118; 48] 1 VNull = Some b
             /\ exists d, json_denote b = JOk d /\ dval_eqb d (default_denote 1 (gql_denote [] VNull)) = false.
 Proof. eexists. split; [vm_compute; reflexivity|]. eexists. split; vm_compute; reflexivity. Qed.
+
+(* BACKSLASH u { 4 1 }, in quotes: a valid GraphQL string (the letter A) whose copy is not JSON *)
+Lemma hist_brace_invalid :
+  lit_valid (VStr [92; 117; 123; 52; 49; 125] false) /\ json_denote (string_to_json_v1 [92; 117; 123; 52; 49; 125] false) = JInvalid.
+Proof. split; vm_compute; reflexivity. Qed.
+
+(* SPACE DQUOTE SPACE SPACE a, as a block string: the quote next to the trimmed white space was taken for the delimiter *)
+Lemma hist_quote_ws_differs :
+  lit_valid (VStr [32; 34; 32; 32; 97] true) /\
+  exists d, json_denote (string_to_json_v1 [32; 34; 32; 32; 97] true) = JOk d
+            /\ dval_eqb d (gql_denote [] (VStr [32; 34; 32; 32; 97] true)) = false.
+Proof. split; [vm_compute; reflexivity|]. eexists. split; vm_compute; reflexivity. Qed.
+Example hist_quote_ws_values :
+  block_string_value_v1 [32; 34; 32; 32; 97] = [32; 32; 97] /\ block_string_value [32; 34; 32; 32; 97] = [32; 34; 32; 32; 97]
+  /\ spec_block_value [32; 34; 32; 32; 97] = [32; 34; 32; 32; 97].
+Proof. repeat split; vm_compute; reflexivity. Qed.
